@@ -908,3 +908,75 @@ def check_breakdown_schedule(ctx, rule):
                    show(bad[0][0]) if bad else "", show(bad[0][1]) if bad else "",
                    names.get(bad[0][2], bad[0][2]) if bad else "", names.get(bad[0][3], bad[0][3]) if bad else ""))
     ctx.need(n_ == 2, "breakdown schedule: %d models" % n_)
+
+
+# ------------------------------------------------------------------------------------------------ sharing
+
+_SUB = {}
+
+
+def sub_instances(ctx, prop):
+    """The instances another property's rules produce on this tree (evaluated once per process)."""
+    key = (prop, ctx.root)
+    if key not in _SUB:
+        import importlib
+        from ovsa.engine import Ctx as _Ctx
+        mod = importlib.import_module("rules." + prop)
+        sub = _Ctx(prop, ctx.prog, ctx.root, "quick")
+        mod.run(sub)
+        _SUB[key] = sub.instances
+    return _SUB[key]
+
+
+def share(ctx, rule, prop, pred, prefix, because, minimum):
+    """Report under `rule` the instances of property `prop` selected by pred(instance)."""
+    n = 0
+    for i_ in sub_instances(ctx, prop):
+        if not pred(i_):
+            continue
+        n += 1
+        if i_["ok"]:
+            ctx.ok(rule, prefix + i_["inst"], i_["where"])
+        else:
+            ctx.fail(rule, prefix + i_["inst"], i_["where"], i_["what"] + " (" + because + ")")
+    ctx.need(n >= minimum, "%s: only %d shared instances of %s" % (rule, n, prop))
+    return n
+
+
+def check_track_mode_vs_cfg(ctx, rule):
+    """The Paraver configurations shipped in cfg/thread/ name each thread view after the threads it shows ("... of
+    the ACTIVE thread", "... of the RUNNING thread") and select it by its PRV type.  The tracking mode the model
+    declares for the channel of that type must be the one the view's name documents."""
+    import glob
+    import os
+    import re
+    prog = ctx.prog
+    from ovsa import models as _m
+    RUN, ACT = prog.enum_val("TRACK_TH_RUN"), prog.enum_val("TRACK_TH_ACT")
+    bytype = {}
+    for m in _m.discover(prog):
+        cs = _m.chan_spec(prog, m, "thread")
+        if cs is None:
+            continue
+        for i, t in cs["type"].items():
+            bytype[t] = (m.name, cs["names"].get(i), cs["track"].get(i),
+                         "%s:%d" % (cs["track_global"]["file"], cs["track_global"]["line"]) if cs["track_global"] else m.file)
+    n_ = 0
+    for path in sorted(glob.glob(os.path.join(ctx.root, "cfg", "thread", "*", "*.cfg"))):
+        txt = open(path, errors="replace").read()
+        ty = re.findall(r"^window_filter_module evt_type 1 (\d+)\s*$", txt, re.M)
+        lab = re.findall(r'^window_filter_module evt_type_label 1 "([^"]*)"', txt, re.M)
+        if len(ty) != 1 or len(lab) != 1:
+            continue
+        t = int(ty[0])
+        want = ACT if lab[0].endswith("of the ACTIVE thread") else (RUN if lab[0].endswith("of the RUNNING thread") else None)
+        if want is None or t not in bytype:
+            continue
+        model, chname, mode, where = bytype[t]
+        n_ += 1
+        rel = os.path.relpath(path, ctx.root)
+        ctx.check(mode == want, rule, "track-mode:%s:%s:type%d" % (model, chname, t), where,
+                  "the shipped view %s shows PRV type %d as '%s', but %s declares tracking mode %s for that channel "
+                  "(%d = running only, %d = running, cooling or warming): the thread timeline hides or shows the value "
+                  "in other states than documented" % (rel, t, lab[0], model, mode, RUN, ACT))
+    ctx.need(n_ >= 10, "only %d shipped thread views could be related to a model channel" % n_)
